@@ -163,7 +163,8 @@ def _get_last_line(node_or_leaf):
             # actually before endmarker, CPython just adds a newline to make
             # source code pass the parser, to account for that Parso error
             # recovery allows small_stmt instead of simple_stmt).
-            return last_leaf.end_pos[0] + 1
+            # There may be multiple backslash continuation lines.
+            return n.start_pos[0]
         return last_leaf.end_pos[0]
 
 
